@@ -160,10 +160,21 @@ def g4(F, rep):
     # ---- zlib: payload at index + 2 ------------------------------------------------------------
     probes = [(bb, t) for bb, t in b.calls() if strip_generics(callee_def(t)) == PC + "decompress_deflate_stream"]
     descs = [_arg_desc(b, t, 0) for _, t in probes]
-    rep.add("G4", "zlib:payload-at-index+2", any(re.match(r"^index\(var\(src\), RangeFrom\{Add\(var\(index\), K2\)(\.0)?\}\)$", d) for d in descs), b.where(probes[0][0]) if probes else "",
-            "probe inputs: %s" % descs)
-    rep.add("G4", "gzip:payload-after-header", any(re.match(r"^index\(var\(src\), RangeFrom\{var\(start\)\}\)$", d) for d in descs) and
-            _var_def(b, "start") and re.match(r"^Add\(var\(index\), position\(var\(cursor\)\)\)(\.0)?$", _var_def(b, "start")[0]) is not None, "", "start := %s" % _var_def(b, "start"))
+    # the payload offset may be written in place or held in a local first; every local of that name is then judged by its own definitions
+    ZL, GZ = r"^Add\(var\(index\), K2\)(\.0)?$", r"^Add\(var\(index\), position\(var\(cursor\)\)\)(\.0)?$"
+    per_local = []
+    for l in b.locals_named("start"):
+        ds = [flow.describe_rvalue(b, payload, names=True) if kind == "assign" else "call" for _, _, kind, payload in b.defs(l)]
+        ds = [d for d in ds if d != "var(start)"] or ds[:1]
+        per_local.append(ds)
+    via = any(re.match(r"^index\(var\(src\), RangeFrom\{var\(start\)\}\)$", d) for d in descs)
+    all_known = all(ds and all(re.match(ZL, d) or re.match(GZ, d) for d in ds) for ds in per_local)
+    zl_direct = any(re.match(r"^index\(var\(src\), RangeFrom\{Add\(var\(index\), K2\)(\.0)?\}\)$", d) for d in descs)
+    n_via = sum(1 for d in descs if re.match(r"^index\(var\(src\), RangeFrom\{var\(start\)\}\)$", d))
+    zl_local = via and all_known and n_via == len(per_local) and any(ds and all(re.match(ZL, d) for d in ds) for ds in per_local)
+    rep.add("G4", "zlib:payload-at-index+2", zl_direct or zl_local, b.where(probes[0][0]) if probes else "",
+            "probe inputs: %s; start := %s" % (descs, per_local))
+    rep.add("G4", "gzip:payload-after-header", via and all_known and any(ds and all(re.match(GZ, d) for d in ds) for ds in per_local), "", "start := %s" % per_local)
     cur = [t for bb, t in b.calls() if strip_generics(callee_def(t)) == "std::io::Cursor::new"]
     rep.add("G4", "gzip:cursor-at-signature", len(cur) == 1 and re.match(r"^index\(var\(src\), RangeFrom\{var\(index\)\}\)$", _arg_desc(b, cur[0], 0)) is not None, "", "Cursor::new(%s)" % (_arg_desc(b, cur[0], 0) if cur else None))
     # ---- gzip header -----------------------------------------------------------------------------
